@@ -11,14 +11,17 @@ Sub-checks
 
   mate_trunc    OHV / UC mate selection (cross = the candidate) with the exact sorting optimiser: the chosen crosses are
                 the best candidate crosses by a criterion recomputed from its definition (OHV: ploidy x sum over blocks of
-                the best block value among the parents' phases, one block per chromosome; UC: parental mean + i x s.d. of
-                the DH progeny from the pedigree enumerator of pbt.oracles), permutation equivariance, cross map, table
+                the best block value among the parents' phases, one block per chromosome; UC with the two-way, three-way,
+                four-way and dihybrid DH variance factories: expected progeny value (parents weighted by their share in the
+                pedigree of the scheme) + i x s.d. of the DH progeny from the pedigree enumerator of pbt.oracles for the same
+                scheme), permutation equivariance where the permuted population offers the same crosses, cross map, table
   mate_trunc_large   the same clauses on a few fixed large populations (candidate-cross counts on both sides of 1024,
                 2048: the protocol evaluates crosses in blocks of 1024); most of them in the thorough tier
 
 Histories: select_trunc, select_ga and mate_trunc drive ONE protocol object through up to three uses ("generations"):
 between uses public attributes are reassigned through their setters (ncross, nparent, nmating, nprogeny, obj_wt,
-unscale, unique_parents, nhaploblk, upper_percentile, transformation kwargs, ndset_wt) and the population is kept (same
+unscale, unique_parents, nhaploblk, upper_percentile, UC cross scheme = vmatfcty + nparent, transformation kwargs, ndset_wt)
+and the population is kept (same
 objects), replaced by one of the same size, or by one of another size.  Every clause is checked after every use
 against the settings and population in force at that use.
 
@@ -45,6 +48,9 @@ from pybrops.popgen.bvmat.DenseBreedingValueMatrix import DenseBreedingValueMatr
 from pybrops.model.gmod.DenseAdditiveLinearGenomicModel import DenseAdditiveLinearGenomicModel
 from pybrops.popgen.cmat.fcty.DenseMolecularCoancestryMatrixFactory import DenseMolecularCoancestryMatrixFactory
 from pybrops.model.vmat.fcty.DenseTwoWayDHAdditiveGeneticVarianceMatrixFactory import DenseTwoWayDHAdditiveGeneticVarianceMatrixFactory
+from pybrops.model.vmat.fcty.DenseThreeWayDHAdditiveGeneticVarianceMatrixFactory import DenseThreeWayDHAdditiveGeneticVarianceMatrixFactory
+from pybrops.model.vmat.fcty.DenseFourWayDHAdditiveGeneticVarianceMatrixFactory import DenseFourWayDHAdditiveGeneticVarianceMatrixFactory
+from pybrops.model.vmat.fcty.DenseDihybridDHAdditiveGeneticVarianceMatrixFactory import DenseDihybridDHAdditiveGeneticVarianceMatrixFactory
 from pybrops.popgen.gmap.HaldaneMapFunction import HaldaneMapFunction
 from pybrops.breed.prot.sel.cfg.SubsetSelectionConfiguration import SubsetSelectionConfiguration
 from pybrops.breed.prot.sel.cfg.RealSelectionConfiguration import RealSelectionConfiguration
@@ -98,17 +104,27 @@ ASSUMPTIONS = [
     "OHV value of a cross from its definition: ploidy * sum over haplotype blocks of the largest block value (sum of allele * "
     "effect over the block's markers) among both phases of all parents of the cross; nhaploblk is set to the number of "
     "chromosomes, the one layout that is fixed by the documentation (every chromosome gets at least one block) -- finer "
-    "layouts are the subject of C18.  UC value of a two-way cross: mean genomic value (intercept included) of the two parents "
-    "+ pdf(ppf(1-p))/p * s.d. of the DH progeny of their F1, the variance taken from the pedigree enumerator of "
-    "pbt.oracles.pedigree2 (the C12 oracle, written from the mating protocols); UC populations consist of inbred lines, as the "
-    "two-way DH variance factory presupposes.  Values are compared as intervals (OHV: 64*eps*2*sum|u|; UC: relative 1e-11 of "
+    "layouts are the subject of C18.  UC value of a cross under the scheme of the variance factory the protocol was given "
+    "(two-way, three-way, four-way, dihybrid; nparent = the scheme's): expected genomic value (intercept included) of the DH "
+    "progeny + pdf(ppf(1-p))/p * their s.d.  The expected value weights each parent's genomic value by the share of the progeny "
+    "genome descending from it in the scheme's pedigree, with the columns of the cross table read as the mating protocols read "
+    "them: two-way / dihybrid (female, male) 1/2 each; three-way (recurrent, female, male) = recurrent x (female x male): 1/2, "
+    "1/4, 1/4; four-way (female2, male2, female1, male1): 1/4 each -- computed by the harness from the pedigree (and cross-checked "
+    "at import against the founder-origin enumeration of the mating protocols), never read from the library's variance matrix "
+    "(vmat.epgc).  The variance comes from the pedigree enumerator of pbt.oracles.pedigree2 for the same scheme (the C12 oracle, "
+    "written from the mating protocols); two-/three-/four-way populations consist of inbred lines, as those factories "
+    "presuppose, dihybrid populations may be heterozygous.  For three-/four-way crosses the position of a parent in a candidate "
+    "is its role in the pedigree, so a reordered population offers other candidate crosses: the truncation clause is checked "
+    "on the passed and on the permuted population separately, each against its own candidates, and the chosen cross sets are "
+    "compared only when both populations offer the same crosses (always for OHV, two-way, dihybrid).  Values are compared as intervals (OHV: 64*eps*2*sum|u|; UC: relative 1e-11 of "
     "4*(sum|u|)^2 on the variance, 1e-9 relative on the value): a violation needs a chosen cross whose lower bound exceeds "
     "the upper bound of an unchosen one, so ties and near-ties are never reported; the permuted run is compared by cross sets "
     "only when the best set is unambiguous under these intervals.  OCS has no exact optimiser bundled (its objective is not "
     "additive over members), so it has no truncation clause",
     "re-use of one protocol object: settings are reassigned through public setters only; after ncross changes, nmating and "
     "nprogeny are assigned again (their setters expand a scalar to the ncross in force at assignment time); for OHV nhaploblk "
-    "is reassigned when the next population has a different number of chromosomes.  'same' population = the very same "
+    "is reassigned when the next population has a different number of chromosomes; a UC protocol is moved to another cross scheme by "
+    "assigning vmatfcty and nparent.  'same' population = the very same "
     "genotype / breeding-value / model objects are passed again",
 ]
 
@@ -922,7 +938,57 @@ def _ga_use(case, ctx, k, prot, w):
 # =====================================================================================================================
 # sub-check mate_trunc: the candidates are crosses; exact optimiser => the best crosses by the criterion's definition
 # =====================================================================================================================
-MATE_SETTINGS = ("ncross", "nparent", "nmating", "nprogeny", "unique", "lwt", "obj_wt", "upct")
+MATE_SETTINGS = ("ncross", "nparent", "nmating", "nprogeny", "unique", "lwt", "obj_wt", "upct", "scheme")
+
+# cross schemes of the usefulness criterion: the DH variance factory handed to the protocol, the number of parents of one
+# cross and the pedigree of the cross in the column order of the cross table (the order the mating protocols read it in:
+# two-way / dihybrid (female, male); three-way (recurrent, female, male) = recurrent x (female x male);
+# four-way (female2, male2, female1, male1) = (female1 x male1) x (female2 x male2))
+UC_FACTORY = {"two": DenseTwoWayDHAdditiveGeneticVarianceMatrixFactory, "three": DenseThreeWayDHAdditiveGeneticVarianceMatrixFactory,
+              "four": DenseFourWayDHAdditiveGeneticVarianceMatrixFactory, "dihybrid": DenseDihybridDHAdditiveGeneticVarianceMatrixFactory}
+UC_PEDIGREE = {"two": (0, 1), "three": (0, (1, 2)), "four": ((2, 3), (0, 1)), "dihybrid": (0, 1)}
+UC_NPARENT = {"two": 2, "three": 3, "four": 4, "dihybrid": 2}
+
+
+def pedigree_share(scheme):
+    """expected share of the progeny genome that descends from each column of the cross table, read off the pedigree:
+    every mating passes on one half of either side (selfing and doubling of haploids leave expectations unchanged)"""
+    out = [0.0] * UC_NPARENT[scheme]
+
+    def walk(node, w):
+        if isinstance(node, int):
+            out[node] += w
+        else:
+            for side in node:
+                walk(side, 0.5 * w)
+
+    walk(UC_PEDIGREE[scheme], 1.0)
+    return out
+
+
+assert pedigree_share("two") == [0.5, 0.5] and pedigree_share("three") == [0.5, 0.25, 0.25] and pedigree_share("four") == [0.25] * 4
+# the same numbers from the enumeration of the mating protocols (founder-haplotype origin of a DH gamete)
+for _s in UC_PEDIGREE:
+    _m = [float(v) for v in P.origin_marginal(_s)]
+    _m = [_m[0] + _m[1], _m[2] + _m[3]] if _s == "dihybrid" else _m
+    assert all(abs(a - b) < 1e-15 for a, b in zip(_m, pedigree_share(_s))) and len(_m) == UC_NPARENT[_s], (_s, _m)
+
+
+def cross_key(proto, scheme, c):
+    """a candidate cross (columns of the cross table, as original individuals) up to the exchanges that leave the cross the
+    same cross: OHV, two-way, dihybrid: any order; three-way: the two parents of the F1; four-way: the parents within either
+    F1 and the two F1s"""
+    c = tuple(c)
+    if proto == "uc" and scheme == "three":
+        return (c[0],) + tuple(sorted(c[1:]))
+    if proto == "uc" and scheme == "four":
+        a, b = sorted([tuple(sorted(c[:2])), tuple(sorted(c[2:]))])
+        return a + b
+    return tuple(sorted(c))
+
+
+assert cross_key("uc", "three", (2, 5, 1)) == (2, 1, 5) and cross_key("uc", "four", (4, 3, 1, 2)) == (1, 2, 3, 4)
+assert cross_key("uc", "four", (4, 1, 3, 2)) == (1, 4, 2, 3) and cross_key("ohv", None, (2, 0, 1)) == (0, 1, 2)
 
 
 def ncandidates(n, nparent, unique):
@@ -958,27 +1024,33 @@ def mate_population(draw, nmin, nmax, t, inbred):
 
 
 @st.composite
-def mate_params(draw, proto, t, prev=None):
-    inbred = proto == "uc"         # the two-way DH variance factory describes crosses of inbred lines
+def mate_params(draw, proto, t, prev=None, het=False):
+    # the two-/three-/four-way DH variance factories describe crosses of inbred lines; the dihybrid factory takes
+    # heterozygous parents (het: the whole history stays dihybrid on heterozygous populations)
+    inbred = proto == "uc" and not het
     make = lambda lo, hi: mate_population(lo, hi, t, inbred)      # noqa: E731
-    s = {}
-    if prev is None:
-        s["pop"] = draw(make(3, 9))
-    else:
-        s["pop_mode"], s["pop"] = draw(next_population(prev["pop"], 3, 6, (t,), make=make))
-    n = s["pop"]["n"]
-    s.update({"nparent": 2 if proto == "uc" else draw(st.integers(1, 3)), "unique": draw(st.booleans()),
-              "nmating": draw(st.integers(1, 2)), "nprogeny": draw(st.integers(1, 6)),
-              "lwt": [draw(st.sampled_from([1.0, 2.0, 0.5, -1.0])) for _ in range(t)],
-              "obj_wt": draw(st.sampled_from([1.0, 1.0, 1.0, -1.0, 2.0])), "upct": draw(st.sampled_from([0.1, 0.1, 0.3, 0.02, 0.5]))})
+    s = {"nparent": draw(st.integers(1, 3)), "unique": draw(st.booleans()),
+         "nmating": draw(st.integers(1, 2)), "nprogeny": draw(st.integers(1, 6)),
+         "lwt": [draw(st.sampled_from([1.0, 2.0, 0.5, -1.0])) for _ in range(t)],
+         "obj_wt": draw(st.sampled_from([1.0, 1.0, 1.0, -1.0, 2.0])), "upct": draw(st.sampled_from([0.1, 0.1, 0.3, 0.02, 0.5]))}
+    if proto == "uc":
+        s["scheme"] = "dihybrid" if het else draw(st.sampled_from(["two", "three", "three", "four", "four", "dihybrid"]))
     if prev is not None:
-        names = [a for a in MATE_SETTINGS if a != "ncross"]
+        names = [a for a in MATE_SETTINGS if a != "ncross" and a in s]
         keep = draw(st.lists(st.booleans(), min_size=len(names), max_size=len(names)))
         for a, kp in zip(names, keep):
             if kp:
                 s[a] = prev[a]
             elif a == "unique":
                 s[a] = not prev[a]
+    if proto == "uc":
+        s["nparent"] = UC_NPARENT[s["scheme"]]      # the number of parents of a cross is the scheme's
+    need = max(3, s["nparent"])
+    if prev is None:
+        s["pop"] = draw(make(need, 7 if s["nparent"] >= 4 else 9))
+    else:
+        s["pop_mode"], s["pop"] = draw(next_population(prev["pop"], need, 3 if s["nparent"] >= 4 else 6, (t,), make=make))
+    n = s["pop"]["n"]
     ncand = ncandidates(n, s["nparent"], s["unique"])
     s["ncross"] = draw(st.integers(1, min(6, ncand)))
     if prev is not None and prev["ncross"] <= ncand and draw(st.booleans()):
@@ -991,13 +1063,14 @@ def mate_params(draw, proto, t, prev=None):
 def mate_trunc_case(draw):
     proto = draw(st.sampled_from(["ohv", "uc"]))
     t = draw(st.sampled_from([1, 1, 2]))
-    first = draw(mate_params(proto, t))
+    het = proto == "uc" and draw(st.sampled_from([False, False, False, True]))
+    first = draw(mate_params(proto, t, het=het))
     case = dict(first)
     case.update({"proto": proto, "t": t, "combine": "identity" if t == 1 else draw(st.sampled_from(["sum", "dot"])),
                  "seed": draw(st.integers(0, 2 ** 31 - 1))})
     later, prev = [], first
     for _ in range(draw(st.sampled_from([0, 1, 1, 2]))):
-        prev = draw(mate_params(proto, t, prev))
+        prev = draw(mate_params(proto, t, prev, het=het))
         later.append(prev)
     case["later"] = later
     return case
@@ -1012,26 +1085,32 @@ def _large_pop(n, runs, t, inbred, seed):
 
 def mate_trunc_large_cases(tier):
     """fixed sizes: candidate-cross counts just below / above 1024 and 2048 for every way of getting there (two-way with
-    and without self-crosses, three-way, four-way), each as a two-use history on one protocol object with a new
-    population of the same size.  The data seeds follow VERIF_SEED."""
+    and without self-crosses, three-way, four-way; OHV and the UC cross schemes), each as a two-use history on one
+    protocol object with a new population of the same size.  The data seeds follow VERIF_SEED."""
     base = int(os.environ.get("VERIF_SEED", "1")) * 1000
     quick = [("ohv", 46, 2, True), ("ohv", 45, 2, False), ("ohv", 20, 3, True), ("ohv", 66, 2, True), ("ohv", 12, 4, False),
-             ("ohv", 49, 2, True), ("uc", 46, 2, True)]
+             ("ohv", 49, 2, True), ("uc", 46, 2, True), ("uc", 20, 3, True, "three")]
     more = [("ohv", 45, 2, True), ("ohv", 44, 2, False), ("ohv", 19, 3, True), ("ohv", 11, 4, False), ("ohv", 47, 2, True),
             ("ohv", 64, 2, True), ("ohv", 65, 2, True), ("ohv", 24, 3, True), ("ohv", 18, 3, False), ("ohv", 14, 4, True),
-            ("ohv", 72, 2, False), ("ohv", 1030, 1, True), ("uc", 45, 2, False), ("uc", 50, 2, True)]
+            ("ohv", 72, 2, False), ("ohv", 1030, 1, True), ("uc", 45, 2, False), ("uc", 50, 2, True),
+            ("uc", 19, 3, True, "three"), ("uc", 18, 3, False, "three"), ("uc", 12, 4, False, "four"), ("uc", 14, 4, True, "four"),
+            ("uc", 46, 2, True, "dihybrid")]
     sizes = quick if tier != "thorough" else quick + more + quick + more
     out = []
-    for j, (proto, n, nparent, unique) in enumerate(sizes):
+    for j, (proto, n, nparent, unique, *scheme) in enumerate(sizes):
+        scheme = (scheme or ["two"])[0] if proto == "uc" else None
+        inbred = proto == "uc" and scheme != "dihybrid"
         t = 1 + j % 2
         runs = [3, 2, 4, 3] if proto == "ohv" else [3, 2]
         sd = base + 10 * j
         ncand = ncandidates(n, nparent, unique)
-        first = {"pop": _large_pop(n, runs, t, proto == "uc", sd), "nparent": nparent, "unique": unique, "nmating": 1, "nprogeny": 2,
+        first = {"pop": _large_pop(n, runs, t, inbred, sd), "nparent": nparent, "unique": unique, "nmating": 1, "nprogeny": 2,
                  "lwt": [1.0, 0.5][:t], "obj_wt": 1.0, "upct": 0.1, "ncross": min(ncand // 2, 12 + 9 * (j % 4)),
                  "perm": [int(v) for v in numpy.random.default_rng(sd + 1).permutation(n)]}
+        if scheme:
+            first["scheme"] = scheme
         second = dict(first)
-        second.update({"pop": _large_pop(n, runs[::-1], t, proto == "uc", sd + 2), "pop_mode": "same_size", "ncross": min(ncand // 2, 30 + j),
+        second.update({"pop": _large_pop(n, runs[::-1], t, inbred, sd + 2), "pop_mode": "same_size", "ncross": min(ncand // 2, 30 + j),
                        "perm": [int(v) for v in numpy.random.default_rng(sd + 3).permutation(n)]})
         case = dict(first)
         case.update({"proto": proto, "t": t, "combine": "identity" if t == 1 else "dot", "seed": sd, "later": [second]})
@@ -1050,7 +1129,7 @@ def _mate_protocol(case):
         kw["obj_trans_kwargs"] = {"latentvec_wt": numpy.array(case["lwt"], dtype=float)}
     if case["proto"] == "ohv":
         return OptimalHaploidValueSubsetSelection(nhaploblk=len(case["pop"]["runs"]), **kw)      # one block per chromosome
-    return UsefulnessCriterionSubsetSelection(nself=0, upper_percentile=case["upct"], vmatfcty=DenseTwoWayDHAdditiveGeneticVarianceMatrixFactory(),
+    return UsefulnessCriterionSubsetSelection(nself=0, upper_percentile=case["upct"], vmatfcty=UC_FACTORY[case.get("scheme", "two")](),
                                               gmapfn=HaldaneMapFunction(), **kw)
 
 
@@ -1073,6 +1152,8 @@ def _mate_reassign(prot, case, prev, cur):
         prot.obj_wt = cur["obj_wt"]
     if case["proto"] == "uc" and cur["upct"] != prev["upct"]:
         prot.upper_percentile = cur["upct"]
+    if case["proto"] == "uc" and cur.get("scheme", "two") != prev.get("scheme", "two"):
+        prot.vmatfcty = UC_FACTORY[cur.get("scheme", "two")]()       # another cross scheme: its variance factory (nparent follows above)
     if case["proto"] == "ohv" and len(cur["pop"]["runs"]) != len(prev["pop"]["runs"]):
         prot.nhaploblk = len(cur["pop"]["runs"])
 
@@ -1102,10 +1183,15 @@ _o = ohv_bounds({"n": 2, "p": 3, "t": 1, "runs": [2, 1], "hap": [1, 0, 0, 0, 1, 
 assert [round(0.5 * (lo + hi), 9) for ((lo, hi),) in _o] == [2.0, 6.0, 6.0], _o
 
 
-def uc_bounds(pop, crosses, upct):
-    """per candidate two-way cross and trait (lo, hi) of the usefulness criterion from its definition: mean genomic value
-    of the two (inbred) parents + selection intensity x s.d. of the genomic values of their doubled-haploid progeny; the
-    variance is the exact variance of the DH gametes of the F1 (pedigree enumerator, Haldane map, no selfing)"""
+def uc_bounds(pop, scheme, crosses, upct):
+    """per candidate cross (columns of the cross table in the order the scheme's mating protocol reads them) and trait
+    (lo, hi) of the usefulness criterion from its definition: expected genomic value of the doubled-haploid progeny of the
+    cross + selection intensity x their s.d.  Expected value: every parent's genomic value weighted by the share of the
+    progeny genome that descends from it in the scheme's pedigree (pedigree_share: two-way / dihybrid 1/2, 1/2;
+    three-way recurrent 1/2, F1 parents 1/4 each; four-way 1/4 each) -- never read from the library's variance matrix;
+    variance: the exact variance of the DH progeny of that pedigree (enumerator of pbt.oracles.pedigree2 for the same
+    scheme, Haldane map, no selfing)"""
+    share = pedigree_share(scheme)
     n, p, t = pop["n"], pop["p"], pop["t"]
     hap = numpy.array(pop["hap"], dtype=float).reshape(2, n, p)
     u = numpy.array(pop["u"], dtype=float).reshape(p, t)
@@ -1116,11 +1202,11 @@ def uc_bounds(pop, crosses, upct):
     gv = [[pop["beta"][j] + math.fsum((hap[0, i, m] + hap[1, i, m]) * u[m, j] for m in range(p)) for j in range(t)] for i in range(n)]
     S = [4.0 * float(numpy.abs(u[:, j]).sum()) ** 2 for j in range(t)]
     out = []
-    for a, b in crosses:
-        var = numpy.diag(P.progeny_cov("two", P.scheme_slots("two", hap, (a, b)), u, rmat, 0))
+    for c in crosses:
+        var = numpy.diag(P.progeny_cov(scheme, P.scheme_slots(scheme, hap, tuple(c)), u, rmat, 0))
         row = []
         for j in range(t):
-            pm = 0.5 * (gv[a][j] + gv[b][j])
+            pm = math.fsum(share[q] * gv[c[q]][j] for q in range(len(share)))
             tv = 1e-11 * S[j] + 1e-300
             v = max(float(var[j]), 0.0)
             slack = 1e-9 * (abs(pm) + inten * math.sqrt(v) + math.sqrt(S[j]) + abs(pop["beta"][j]))
@@ -1144,33 +1230,51 @@ def check_mate_trunc(case, ctx):
 
 def _mate_use(case, ctx, k, prev, prots, worlds):
     proto, t = case["proto"], case["t"]
+    scheme = case.get("scheme", "two") if proto == "uc" else None
     pop = expand_pop(case["pop"])
     n, nparent, unique, T = pop["n"], case["nparent"], case["unique"], case["ncross"]
-    cand = [tuple(c) for c in ref_xmap(n, nparent, unique)]
-    bnd = ohv_bounds(pop, cand) if proto == "ohv" else uc_bounds(pop, cand, case["upct"])
     lw = case["lwt"] if case["combine"] == "dot" else [1.0] * t
-    # single-cross objective the protocol declares (minimised): obj_wt * sum_j lw_j * (-value_cj), as an interval
-    lo, hi = [], []
-    for row in bnd:
-        ends = [sorted((-case["obj_wt"] * lw[j] * row[j][0], -case["obj_wt"] * lw[j] * row[j][1])) for j in range(t)]
-        lo.append(math.fsum(e[0] for e in ends))
-        hi.append(math.fsum(e[1] for e in ends))
-    index = {c: i for i, c in enumerate(cand)}
-    by_hi, by_lo = sorted(hi), sorted(lo)
-    boundary_clear = T < len(cand) and by_hi[T - 1] < by_lo[T]      # the set of the T best candidates is unambiguous
-    distinct = len(set(round(v, 9) for v in lo))
+    ncand = ncandidates(n, nparent, unique)
+    memo = {}
+
+    def objective(keys):
+        """single-cross objective the protocol declares (minimised): obj_wt * sum_j lw_j * (-value_cj), as an interval"""
+        todo = [c for c in keys if c not in memo]
+        if todo:
+            bnd = ohv_bounds(pop, todo) if proto == "ohv" else uc_bounds(pop, scheme, todo, case["upct"])
+            for c, row in zip(todo, bnd):
+                ends = [sorted((-case["obj_wt"] * lw[j] * row[j][0], -case["obj_wt"] * lw[j] * row[j][1])) for j in range(t)]
+                memo[c] = (math.fsum(e[0] for e in ends), math.fsum(e[1] for e in ends))
+        return [memo[c][0] for c in keys], [memo[c][1] for c in keys]
+
     ctx.label("unique_parents", unique)
     ctx.label("self_crosses_are_candidates", not unique and nparent >= 2)
     ctx.label("nparent=%d" % nparent)
-    ctx.label("candidates>1024", len(cand) > 1024)
-    ctx.label("candidates>2048", len(cand) > 2048)
-    ctx.label("tie_at_truncation_point", T < len(cand) and not boundary_clear)
-    ctx.label("best_set_unambiguous", boundary_clear)
+    if scheme:
+        ctx.label("scheme=" + scheme)
+        ctx.label("heterozygous_parents", any(pop["hap"][i] != pop["hap"][n * pop["p"] + i] for i in range(n * pop["p"])))
+    ctx.label("candidates>1024", ncand > 1024)
+    ctx.label("candidates>2048", ncand > 2048)
     ctx.label("negative_obj_wt", case["obj_wt"] < 0)
-    ctx.nontrivial(T < len(cand) and distinct >= 3)
     use = "" if k == 0 else " (use %d of the same protocol object)" % (k + 1)
-    chosen = {}
+    chosen, candset, clear = {}, {}, {}
     for tag, order in (("passed", list(range(n))), ("permuted", case["perm"])):
+        # the candidates of this run: every combination of positions of the population as passed, read as a cross of the
+        # individuals standing there (for three-/four-way crosses the position in the combination is the role in the pedigree,
+        # so a reordered population has other candidates)
+        cand = [cross_key(proto, scheme, [order[e] for e in c]) for c in ref_xmap(n, nparent, unique)]
+        lo, hi = objective(cand)
+        index = {c: i for i, c in enumerate(cand)}
+        by_hi, by_lo = sorted(hi), sorted(lo)
+        boundary_clear = T < len(cand) and by_hi[T - 1] < by_lo[T]      # the set of the T best candidates is unambiguous
+        candset[tag], clear[tag] = set(cand), boundary_clear
+        if tag == "passed":
+            distinct = len(set(round(v, 9) for v in lo))
+            ctx.label("tie_at_truncation_point", T < len(cand) and not boundary_clear)
+            ctx.label("best_set_unambiguous", boundary_clear)
+            if scheme:
+                ctx.label("scheme=%s:best_set_unambiguous" % scheme, boundary_clear)
+            ctx.nontrivial(T < len(cand) and distinct >= 3)
         if k and case.get("pop_mode") == "same":
             w = worlds[tag]
         else:
@@ -1195,8 +1299,8 @@ def _mate_use(case, ctx, k, prev, prots, worlds):
         got = check_mate_config(ctx, soln, rows, dl, n, nparent, unique, evidence)
         if not all(0 <= d < len(got) for d in dl):
             continue
-        # truncation: the chosen crosses (as sets of original individuals) are the T best candidate crosses
-        named = [tuple(sorted(order[e] for e in got[d])) for d in dl]
+        # truncation: the chosen crosses (as crosses of original individuals) are the T best candidate crosses
+        named = [cross_key(proto, scheme, [order[e] for e in got[d]]) for d in dl]
         ctx.check(all(c in index for c in named), "mate_trunc.chosen_cross_is_not_a_candidate", evidence)
         if not all(c in index for c in named):
             continue                          # (clause already recorded; the runner keeps searching behind it)
@@ -1205,11 +1309,15 @@ def _mate_use(case, ctx, k, prev, prots, worlds):
         rest = set(range(len(cand))) - set(ix)
         outside = min((hi[i] for i in rest), default=None)
         ctx.check(outside is None or inside <= outside, "mate_trunc.chosen_are_not_the_best_by_criterion",
-                  lambda: "%s population%s: %s chose crosses %s with objective values (minimised) %s although unchosen candidate %s has %r (%d candidates, ntaxa=%d "
-                          "nparent=%d unique_parents=%s)" % (tag, use, type(prot).__name__, named[:12], [0.5 * (lo[i] + hi[i]) for i in ix][:12],
+                  lambda: "%s population%s: %s%s chose crosses %s with objective values (minimised) %s although unchosen candidate %s has %r (%d candidates, ntaxa=%d "
+                          "nparent=%d unique_parents=%s)" % (tag, use, type(prot).__name__, " with the %s DH variance factory" % (scheme if scheme == "dihybrid" else scheme + "-way") if scheme else "",
+                                                             named[:12], [0.5 * (lo[i] + hi[i]) for i in ix][:12],
                                                              cand[min(rest, key=lambda i: hi[i])], outside, len(cand), n, nparent, unique))
         chosen[tag] = sorted(named)
-    if boundary_clear and len(chosen) == 2:
+    # the permuted population offers the same crosses (always for OHV, two-way and dihybrid crosses): the same crosses are chosen
+    comparable = len(chosen) == 2 and candset["passed"] == candset["permuted"] and clear["passed"] and clear["permuted"]
+    ctx.label("permuted_population_offers_the_same_crosses", candset["passed"] == candset["permuted"])
+    if comparable:
         ctx.check(chosen["passed"] == chosen["permuted"], "mate_trunc.permutation_changes_selected_crosses",
                   lambda: "selected %s, after permuting the population by %s: %s%s" % (chosen["passed"][:12], case["perm"], chosen["permuted"][:12], use))
 
@@ -1237,17 +1345,21 @@ SUBCHECKS = [
                               "reuse:population_same", "reuse:population_same_size", "reuse:same_ntaxa_and_nparent_other_setting_changed")
              + tuple("proto=" + p for p in PROTOCOLS)),
     SubCheck("mate_trunc", check_mate_trunc, mate_trunc_case(), quick=100, thorough=1500, shards_quick=4,
-             rule="generated phased population (3-9 taxa, 1-3 chromosomes, integer (tied) or float effects; inbred lines for UC) x "
-                  "(OHV nparent 1-3 | UC two-way DH) x unique_parents x ncross 1-6 x latent combination x obj_wt sign x a permutation "
+             rule="generated phased population (3-9 taxa, 1-3 chromosomes, integer (tied) or float effects; inbred lines for UC, "
+                  "heterozygous for a quarter of the dihybrid UC cases) x (OHV nparent 1-3 | UC with the two-way / three-way / four-way / "
+                  "dihybrid DH variance factory, nparent 2/3/4/2) x unique_parents x ncross 1-6 x latent combination x obj_wt sign x a permutation "
                   "of the population x 0-2 further uses of the same protocol object after reassigning settings / exchanging the "
                   "population; sorting optimiser; non-trivial = some candidate cross is rejected and >= 3 distinct criterion values",
              required_labels=("proto=ohv", "proto=uc", "tie_at_truncation_point", "best_set_unambiguous", "self_crosses_are_candidates",
-                              "negative_obj_wt", "combine=dot", "reuse:use_2", "reuse:use_3", "reuse:changed_unique", "reuse:changed_nparent",
+                              "scheme=two:best_set_unambiguous", "scheme=three:best_set_unambiguous", "scheme=four:best_set_unambiguous",
+                              "scheme=dihybrid:best_set_unambiguous", "heterozygous_parents", "reuse:changed_scheme",
+                              "permuted_population_offers_the_same_crosses", "negative_obj_wt", "combine=dot", "reuse:use_2", "reuse:use_3", "reuse:changed_unique", "reuse:changed_nparent",
                               "reuse:population_same", "reuse:population_same_size", "reuse:population_new",
                               "reuse:same_ntaxa_and_nparent_other_setting_changed")),
-    SubCheck("mate_trunc_large", check_mate_trunc, cases=mate_trunc_large_cases, shards_quick=7, shards_thorough=16,
+    SubCheck("mate_trunc_large", check_mate_trunc, cases=mate_trunc_large_cases, shards_quick=8, shards_thorough=16,
              rule="fixed population sizes whose candidate-cross count lies just below / above 1024 and 2048 (two-way with and "
                   "without self-crosses, three-way, four-way, single-parent), random phased genotypes and effects from VERIF_SEED, "
-                  "two uses of one protocol object; 7 cases in the quick tier, 42 in the thorough tier",
-             required_labels=("candidates>1024", "candidates>2048", "proto=ohv", "proto=uc", "best_set_unambiguous")),
+                  "two uses of one protocol object; OHV, UC two-way and (quick: 20 lines three-way = 1140 candidates; thorough: also "
+                  "four-way and dihybrid) the other UC cross schemes; 8 cases in the quick tier, 54 in the thorough tier",
+             required_labels=("candidates>1024", "candidates>2048", "proto=ohv", "proto=uc", "best_set_unambiguous", "scheme=two", "scheme=three")),
 ]
